@@ -786,3 +786,85 @@ func sortSupportSound(c *Ctx, rule, typ string) {
 		c.Check(rule, typ+".Swap", c.P.Pos(fn.Pos()), "Swap exchanges exactly elements i and j (both old values read before either is overwritten)", ok, found, 1)
 	}
 }
+
+
+// S-CFGCODEC: the configuration that goes into a log entry, a snapshot
+// request or the bootstrap entry is the one that comes out again. Decides the
+// wiring of EncodeConfiguration/DecodeConfiguration and of the msgpack helpers
+// and the encodability of the types; the codec library itself is trusted.
+func sConfigCodec(c *Ctx, rule string) {
+	if fn := c.Fn(rule, "EncodeConfiguration"); fn != nil {
+		ok := false
+		d := ""
+		for _, ret := range engine.ReturnsOf(fn) {
+			d = c.P.D(engine.ReturnValues(ret)[0])
+			ok = d == "encodeMsgPack(p1)#0.Bytes()"
+		}
+		r := c.Run(&engine.Automaton{Fn: fn, Tracks: []engine.Track{predErr("encErr", "encodeMsgPack(p1)#1")}})
+		for _, ret := range engine.ReturnsOf(fn) {
+			c.RequireAt(r, rule, "EncodeConfiguration:returns-encoding-of-argument", ret, "the bytes returned are the encoding of the configuration passed in, and only when encoding succeeded (an error panics)", func(v engine.View) bool { return ok && v.F("encErr") })
+		}
+		if len(engine.ReturnsOf(fn)) == 0 {
+			c.Bad(rule, "EncodeConfiguration:returns", c.P.Pos(fn.Pos()), "a return", "none")
+		}
+	}
+	if fn := c.Fn(rule, "DecodeConfiguration"); fn != nil {
+		r := c.Run(&engine.Automaton{Fn: fn, Tracks: []engine.Track{predErr("decErr", "decodeMsgPack(p1, var(Configuration))")}})
+		n := 0
+		for _, ret := range engine.ReturnsOf(fn) {
+			n++
+			d := c.P.D(engine.ReturnValues(ret)[0])
+			c.RequireAt(r, rule, "DecodeConfiguration:returns-decoded-argument", ret, "the configuration returned is the one decoded from the bytes passed in, and only when decoding succeeded (an error panics)", func(v engine.View) bool { return d == "var(Configuration)" && v.F("decErr") })
+		}
+		if n == 0 {
+			c.Bad(rule, "DecodeConfiguration:returns", c.P.Pos(fn.Pos()), "a return", "none")
+		}
+	}
+	if fn := c.Fn(rule, "encodeMsgPack"); fn != nil {
+		ok := false
+		d := ""
+		for _, ret := range engine.ReturnsOf(fn) {
+			vals := engine.ReturnValues(ret)
+			d = c.P.D(vals[0]) + ", " + c.P.D(vals[1])
+			buf := c.P.D(vals[0])
+			ok = strings.HasPrefix(buf, "bytes.NewBuffer(") && strings.Contains(c.P.D(vals[1]), "codec.NewEncoder("+buf+",") && strings.HasSuffix(c.P.D(vals[1]), ".Encode(p1)")
+		}
+		c.Check(rule, "encodeMsgPack:wiring", c.P.Pos(fn.Pos()), "the value passed in is encoded into the buffer that is returned, and the encoder's error is returned", ok, "returns "+d, 1)
+	}
+	if fn := c.Fn(rule, "decodeMsgPack"); fn != nil {
+		ok := false
+		d := ""
+		for _, ret := range engine.ReturnsOf(fn) {
+			d = c.P.D(engine.ReturnValues(ret)[0])
+			ok = strings.Contains(d, "codec.NewDecoder(bytes.NewBuffer(p1),") && strings.HasSuffix(d, ".Decode(p2)")
+		}
+		c.Check(rule, "decodeMsgPack:wiring", c.P.Pos(fn.Pos()), "the bytes passed in are decoded into the object passed in, and the decoder's error is returned", ok, "returns "+d, 1)
+	}
+	for _, tn := range []string{"Configuration", "Server"} {
+		n := c.P.LookupType(tn)
+		if n == nil {
+			c.Bad(rule, "anchor:type "+tn, "-", "type exists", "not found")
+			continue
+		}
+		st, _ := n.Underlying().(*types.Struct)
+		bad := ""
+		for i := 0; st != nil && i < st.NumFields(); i++ {
+			f := st.Field(i)
+			if !f.Exported() {
+				bad = tn + "." + f.Name() + " is unexported: dropped by the codec"
+			}
+			if st.Tag(i) != "" && (strings.Contains(st.Tag(i), `"-"`) || strings.Contains(st.Tag(i), "omitempty")) {
+				bad = tn + "." + f.Name() + " carries tag " + st.Tag(i)
+			}
+			switch f.Type().Underlying().(type) {
+			case *types.Chan, *types.Signature, *types.Interface:
+				bad = tn + "." + f.Name() + " has a kind the codec cannot round-trip"
+			}
+		}
+		nf := 0
+		if st != nil {
+			nf = st.NumFields()
+		}
+		c.Check(rule, "config-wire-type:"+tn, c.P.Pos(n.Obj().Pos()), "every field of "+tn+" is exported, untagged and of an encodable kind (what is stored in the log is the whole membership)", bad == "" && nf > 0, pick(bad == "", fmt.Sprintf("%d fields", nf), bad), nf)
+	}
+}
